@@ -477,6 +477,11 @@ class Unit:
                 hv.append("    HAVOC_CONTAINER_FIELD(%s, %s);" % (f, ct))
             else:
                 hv.append("    HAVOC_SCALAR_FIELD(%s, %s, %s);" % (f, ct, self.types.abbr(ct)))
+                if ct == "ref":
+                    # an object id is null or names an object of the harness's universe
+                    hv.append("    for (unsigned k = 0; k < HEAP_N; ++k) __CPROVER_assume(%s[k] < HEAP_N);" % f)
+        # which objects are still alive (what weak_ptr::lock() sees) is arbitrary too; a harness fixes it afterwards where it matters
+        hv.append("    for (unsigned k = 0; k < HEAP_N; ++k) __alive[k] = nondet_bool();")
         hv += ["#endif", "}"]
         out.append("\n".join(hv))
         out.append(self.heap_tools())
@@ -678,6 +683,14 @@ class FunctionLowerer:
             s = self.line(n) + I + "{\n"
             if init:
                 s += self.stmt(init, d + 1) if init.get("kind") == "DeclStmt" else self.ind(d + 1) + self.expr(init) + ";\n"
+            # LV = the counter this loop declares (a loop contract can name it without depending on what the source calls it)
+            lv = None
+            if init and init.get("kind") == "DeclStmt":
+                vds = [c for c in init.get("inner", []) if isinstance(c, dict) and c.get("kind") == "VarDecl"]
+                if len(vds) == 1:
+                    lv = vds[0].get("name")
+            if lv:
+                s += "#undef LV\n#define LV %s\n" % lv
             s += self.line(n) + self.ind(d + 1) + "for (; %s; %s)\n" % (self.cond(cond) if cond else "1", self.expr(inc) if inc else "")
             s += self.ind(d + 1) + "__LC_%s_%d\n" % (self.cname, ord_)
             s += self.block(body, d + 1)
